@@ -240,6 +240,15 @@ def run(ctx) -> None:
         floor=1,
     )
     delay_elapsed(ctx, RDL, P, qpaths, qci)
+    RPS = ctx.rule(
+        "C08/partner-search-is-exhaustive",
+        "the partner search (DelayedQueue.remove) returns 'no partner' only after scanning every queued element, or on the strength of a "
+        "counter that every critical section keeps in step with the deque's population",
+        floor=1,
+    )
+    from .c17 import remove_is_exhaustive
+
+    remove_is_exhaustive(ctx, RPS, P, qci, accept_shadow_counter=True)
     rm = qci.methods.get("remove")
     if rm is None:
         raise AnalysisError("anchor vanished: DelayedQueue.remove")
@@ -261,6 +270,8 @@ def run(ctx) -> None:
 
 IB = "observers/inotify_buffer.py"
 VARIANTS = [
+    dict(name="B partner search skipped on a counter that drifts (decremented before the head test)", expect="fire", rule="C08/partner-search-is-exhaustive", edits=[("utils/delayed_queue.py", "        self._closed = False\n", "        self._closed = False\n        self._delayed = 0\n"), ("utils/delayed_queue.py", "        self._queue.append((element, time.time(), delay))\n", "        self._queue.append((element, time.time(), delay))\n        self._delayed += delay\n"), ("utils/delayed_queue.py", "        with self._lock:\n            for i, (elem, *_) in enumerate(self._queue):\n                if predicate(elem):\n                    del self._queue[i]\n", "        with self._lock:\n            if not self._delayed:\n                return None\n            for i, (elem, _t, delayed) in enumerate(self._queue):\n                if predicate(elem):\n                    del self._queue[i]\n                    self._delayed -= delayed\n"), ("utils/delayed_queue.py", "            with self._lock:\n                if len(self._queue) > 0 and self._queue[0][0] is head:", "            with self._lock:\n                self._delayed -= delay\n                if len(self._queue) > 0 and self._queue[0][0] is head:")]),
+    dict(name="E partner search skipped on a coherent counter", expect="silent", edits=[("utils/delayed_queue.py", "        self._closed = False\n", "        self._closed = False\n        self._delayed = 0\n"), ("utils/delayed_queue.py", "        self._queue.append((element, time.time(), delay))\n", "        self._queue.append((element, time.time(), delay))\n        self._delayed += delay\n"), ("utils/delayed_queue.py", "        with self._lock:\n            for i, (elem, *_) in enumerate(self._queue):\n                if predicate(elem):\n                    del self._queue[i]\n", "        with self._lock:\n            if not self._delayed:\n                return None\n            for i, (elem, _t, delayed) in enumerate(self._queue):\n                if predicate(elem):\n                    del self._queue[i]\n                    self._delayed -= delayed\n"), ("utils/delayed_queue.py", "                if len(self._queue) > 0 and self._queue[0][0] is head:\n                    self._queue.popleft()\n", "                if len(self._queue) > 0 and self._queue[0][0] is head:\n                    self._queue.popleft()\n                    self._delayed -= delay\n")]),
     dict(name="B single timed wait instead of the sleep loop", expect="fire", rule="C08/first-half-waits-the-full-delay", edits=[("utils/delayed_queue.py", "                while time_left > 0:\n                    time.sleep(time_left)\n                    time_left = insert_time + self.delay_sec - time.time()\n", "                if time_left > 0:\n                    time.sleep(time_left)\n")]),
     dict(name="B unmatched MOVED_TO dropped", expect="fire", rule="C08/placed-exactly-once", edits=[(IB, "                        logger.debug(\"could not find matching move_from event\")\n                        grouped.append(inotify_event)", "                        logger.debug(\"could not find matching move_from event\")")]),
     dict(name="B delay everything", expect="fire", rule="C08/put-exactly-once", edits=[(IB, "self._queue.put(inotify_event, delay=delay)", "self._queue.put(inotify_event, delay=True)")]),
